@@ -90,6 +90,16 @@ SEEDS = {
     "c18-5": ("C18", "an abort under a policy that contains quiet together with raise and collect", ["C18", "C05"]),
     "c19-5": ("C19", "a job whose first component warns during the validity check (regex with a FutureWarning) run first vs after another job", ["C19"]),
     "c20-5": ("C20", "a variable reference with a tracking key whose final value is falsy (0, False, empty)", ["C20"]),
+    "c01-6": ("C01", "length() applied to a value that is None (header missing from a short row, unset variable) compared with 0 or 4", ["C01"]),
+    "c02-6": ("C02", "breadth-first run of >= 2 members whose last member has a bounded scan ending before an earlier member's", ["C08"]),
+    "c03-6": ("C03", "return-mode: no-matches and no onmatch-style component on the matching line: match_count stays 0, count() reports 1", ["C03", "C15"]),
+    "c04-6": ("C04", "group of >= 2 members whose first member stays valid while a later one fails: run manifest all_valid", ["C04"]),
+    "c05-6": ("C05", "an error in a component that is followed on the same line by a stop() that fires and by at least one more component", ["C05"]),
+    "c06-6": ("C06", "a first non-blank record consisting only of empty or whitespace-only cells (headers taken from a later record)", ["C06"]),
+    "c07-6": ("C07", "a returned record that is a single empty or whitespace-only cell, run driven by collect()", ["C07"]),
+    "c08-6": ("C08", "breadth-first run with if_all_agree=True and a line rejected by some member followed by a line all accept", ["C08"]),
+    "c09-6": ("C09", "a group in which at least two members collect errors: run manifest error_count", ["C09"]),
+    "c10-6": ("C10", "two runs of a group in the same hour, different minutes, the later one with a smaller seconds field", ["C10"]),
     "c02-1": ("C02", "lone reversed range whose low bound is 0 ([3-0]) with record 0 non-blank and a later non-blank record in range", ["C02"]),
     "c03-1": ("C03", "first() on a value first seen on line 0 that re-appears later; scan must include line 0", ["C03"]),
     "c05-1": ("C05", "validation-mode whose FIRST token is no-stop, a non-raising error, and at least one more line after it", ["C05"]),
